@@ -71,8 +71,9 @@ def _compare_traj(rec, tag, A, wa, B, wb, T):
   """first-divergence comparison of world wa of run A with world wb of run B; returns (steps judged, class)."""
   for t in range(T):
     oa, ob = A[t]["obs"], B[t]["obs"]
-    if (oa["overflow"] & CAP_BITS).any() or (ob["overflow"] & CAP_BITS).any():
-      rec.count("ungated_capacity_overflow")
+    why = meta.gate(oa["overflow"], wa, ob["overflow"], wb)
+    if why:
+      rec.count("ungated_" + why)
       return t, "ungated"
     ctx = f"{tag} step {t}"
     c1 = meta.compare_obs(rec, ctx, oa, ob, wa, wb)
